@@ -558,12 +558,20 @@ class UserTrackingManager:
 
             previous_flags = tracked_user.flags
             request.operation(request.flag)
-            is_retry = request.flag == TrackingFlag(0)
+            # A retry request is queued by the retry task right before it
+            # completes. A request coming from a retry task that was dropped or
+            # replaced in the meantime is outdated and must not be acted upon
+            is_retry = (
+                request.flag == TrackingFlag(0)
+                and tracked_user.retry_task is not None
+                and tracked_user.retry_task.done()
+            )
 
             if tracked_user.flags == TrackingFlag(0):
                 # Ensure retry does not get scheduled again if we no longer
                 # desire to track the user
                 await cancel_task(tracked_user.retry_task)
+                tracked_user.retry_task = None
 
                 # Prevent RemoveUser from being called multiple times if there
                 # are multiple entries on the queue
